@@ -262,7 +262,8 @@ pub fn c01(ctx: &mut Ctx) {
     // (a recursive rewrite of a lazy operator's loop is invisible until the list is long enough)
     idx += 1;
     if ctx.mine(idx) {
-        for n in [20_000usize, 100_000, 400_000] {
+        let wide_sizes: &[usize] = if ctx.scale >= 1.0 { &[20_000, 100_000, 400_000] } else { &[20_000, 100_000] };
+        for &n in wide_sizes {
             let falsy = vec![json!(false); n];
             let truthy = vec![json!(1); n];
             let zero_one: Vec<Value> = (0..n).map(|i| if i % 2 == 0 { json!(0) } else { json!("b") }).collect();
@@ -279,7 +280,8 @@ pub fn c01(ctx: &mut Ctx) {
     // ---- M1(h): error paths that quote their operands --------------------------------------------
     // big multi-byte operands in every operator position: whatever an error message quotes,
     // truncates or measures, some alignment puts a character boundary in the wrong place
-    for (si, size) in [1500usize, 20_000, 150_000].iter().enumerate() {
+    let echo_sizes: &[usize] = if ctx.scale >= 1.0 { &[1500, 20_000, 150_000] } else { &[1500, 20_000] };
+    for (si, size) in echo_sizes.iter().enumerate() {
         for k in 0..4usize {
             idx += 1;
             if !ctx.mine(idx) {
